@@ -88,8 +88,15 @@ def P1(c=1, pre=False, classes=2, discipline=None, first=None, burst=None, to=No
 
 # ---- tandem / loops (blocking) ------------------------------------------------------------------
 @config
-def T2(c1=1, c2=1, caps=("inf", 0), first=None, burst=None, a2=False, prio=False, p12=1.0):
+def T2(c1=1, c2=1, caps=("inf", 0), first=None, burst=None, a2=False, prio=False, p12=1.0, shared=False):
     ad = [arr("a1", True, burst), arr("a2", True, burst) if a2 else None]
+    if shared:
+        # the same distribution *objects* are listed for both nodes: every node must still get its own stream
+        sa, ss, sb = arr("a", True, burst), D("s"), ChoiceBatch([1, 2], label="batch")
+        net = ciw.create_network(arrival_distributions=[sa, sa], service_distributions=[ss, ss], number_of_servers=[c1, c2],
+                                 queue_capacities=[cap(caps[0]), cap(caps[1])], routing=[[0.0, p12], [0.0, 0.0]],
+                                 batching_distributions=[sb, sb])
+        return Cfg(net, {"routing": {"Customer": ("nodes", [("prob", [1, 2], [0.0, p12]), ("prob", [1, 2], [0.0, 0.0])])}})
     if prio:
         net = ciw.create_network(
             arrival_distributions={"A": [arr("aA", True, burst), None], "B": [arr("aB", True, burst), None]},
@@ -285,10 +292,14 @@ def BK(kind="sym", c=1, first=None, burst=None, cap_=None):
 
 # ---- class changes ----------------------------------------------------------------------------------
 @config
-def CCa(first=None, burst=None, p=0.5, nodes=1, prio=False, blocking=False):
-    """class change after service; zero entries in the matrix"""
+def CCa(first=None, burst=None, p=0.5, nodes=1, prio=False, blocking=False, order="sorted"):
+    """class change after service; zero entries in the matrix; order='rev': rows and keys written in reverse
+    alphabetical order (the specification is the same mapping)"""
     M = {"A": {"A": 0.0, "B": 1.0}, "B": {"A": 0.0, "B": 1.0}}
     M2 = {"A": {"A": 0.5, "B": 0.5}, "B": {"A": 0.0, "B": 1.0}}
+    if order == "rev":
+        M = {"B": {"B": 1.0, "A": 0.0}, "A": {"B": 1.0, "A": 0.0}}
+        M2 = {"B": {"B": 1.0, "A": 0.0}, "A": {"B": 0.5, "A": 0.5}}
     pc = {"A": 0, "B": 1} if prio else {"A": 0, "B": 0}
     if nodes == 1:
         net = ciw.create_network(arrival_distributions={"A": [arr("aA", True, burst)], "B": [None]},
@@ -452,6 +463,7 @@ def DL(base="L2", tracker="NaiveBlocking", **params):
     cfg.sim_kw["deadlock_detector"] = ciw.deadlock.StateDigraph()
     cfg.mode = "deadlock"
     cfg.flags["until_deadlock"] = True
+    cfg.flags["deepen"] = 5
     return cfg
 
 
